@@ -7,14 +7,14 @@ EXTENDS Source, TLC, Json
 CONSTANT MaxItems
 D1 == <<100, 49>>  D2 == <<103, 102, 102, 45, 118, 32, 51>>     \* "d1", "gff-v 3"
 D3 == <<35, 110, 111, 116, 101>>      \* the line "###note" is the directive "#note"
-Kinds == {"F", "D1", "D2", "D3", "C", "B", "FASTA", "H", "J"}
+Kinds == {"F", "D1", "D2", "D3", "D0", "C", "B", "FASTA", "H", "J"}       \* D0: the line "##" - a directive with the empty text
 TypeOf(n) == IF n % 2 = 0 THEN <<103>> ELSE <<101>>
 SeqOf(n) == IF n % 3 = 0 THEN <<99, 50>> ELSE <<99, 49>>
 T_ID == <<73, 68>>
 KeysOf(n) == IF n % 5 = 3 THEN <<>> ELSE IF n % 2 = 0 THEN <<T_ID>> ELSE <<T_ID, <<78>>>>      \* line 3 (8, ...) has an empty attributes column
 \* the i-th item of a kind sequence; features are numbered by position
 Item(kinds, i) == CASE kinds[i] = "F" -> [k |-> "F", f |-> [n |-> i, ftype |-> TypeOf(i), seqid |-> SeqOf(i), keys |-> KeysOf(i)]]
-                    [] kinds[i] = "D1" -> [k |-> "D", t |-> D1] [] kinds[i] = "D2" -> [k |-> "D", t |-> D2] [] kinds[i] = "D3" -> [k |-> "D", t |-> D3]
+                    [] kinds[i] = "D1" -> [k |-> "D", t |-> D1] [] kinds[i] = "D2" -> [k |-> "D", t |-> D2] [] kinds[i] = "D3" -> [k |-> "D", t |-> D3] [] kinds[i] = "D0" -> [k |-> "D", t |-> <<>>]
                     [] OTHER -> [k |-> kinds[i]]
 Items(kinds) == [i \in 1..Len(kinds) |-> Item(kinds, i)]
 
